@@ -27,6 +27,7 @@ pub open spec fn guess(h: Hunk<&[u8]>, d: PatchDirection, f: int, n: int, off: i
 }
 
 /// The placement rule of C02 for one fuzz level: position p is the one the documented rules select.
+#[verifier::opaque]
 pub open spec fn placed_at(h: Hunk<&[u8]>, d: PatchDirection, f: int, c: Seq<Seq<u8>>, off: int, p: int) -> bool {
     let needle = deep(v_old(h, d, f));
     let g = guess(h, d, f, c.len() as int, off);
@@ -34,6 +35,7 @@ pub open spec fn placed_at(h: Hunk<&[u8]>, d: PatchDirection, f: int, c: Seq<Seq
 }
 
 /// No admissible position matches at this fuzz level.
+#[verifier::opaque]
 pub open spec fn no_place(h: Hunk<&[u8]>, d: PatchDirection, f: int, c: Seq<Seq<u8>>, off: int) -> bool {
     let needle = deep(v_old(h, d, f));
     let g = guess(h, d, f, c.len() as int, off);
@@ -51,6 +53,7 @@ pub open spec fn applied_report(h: Hunk<&[u8]>, d: PatchDirection, f: int, p: in
 }
 
 /// Result of trying view (h,d,f) on file c (C02, one level).  `frozen` = last line changed by the previous hunk.
+#[verifier::opaque]
 pub open spec fn try_result(h: Hunk<&[u8]>, d: PatchDirection, f: int, c: Seq<Seq<u8>>, deleted: bool, off: int, frozen: int,
                             r: HunkApplyReport) -> bool {
     if deleted {
@@ -67,12 +70,21 @@ pub open spec fn try_result(h: Hunk<&[u8]>, d: PatchDirection, f: int, c: Seq<Se
     }
 }
 
-/// Rollback mode: the hunk goes back exactly where the report says, or fails.
+/// The lines of a view that the hunk really changes (view minus remaining context).
+pub open spec fn v_old_core<'x>(h: Hunk<&'x [u8]>, d: PatchDirection, f: int) -> Seq<&'x [u8]> {
+    v_old(h, d, f).subrange(v_pc(h, f), v_old(h, d, f).len() - v_sc(h, f))
+}
+pub open spec fn v_new_core<'x>(h: Hunk<&'x [u8]>, d: PatchDirection, f: int) -> Seq<&'x [u8]> {
+    v_new(h, d, f).subrange(v_pc(h, f), v_new(h, d, f).len() - v_sc(h, f))
+}
+
+/// Rollback mode: the hunk goes back exactly where the report says (rl = recorded line of the view start; only the
+/// changed lines are compared), or fails.
 pub open spec fn rollback_result(h: Hunk<&[u8]>, d: PatchDirection, f: int, c: Seq<Seq<u8>>, deleted: bool, rl: int,
                                  r: HunkApplyReport) -> bool {
     if deleted {
         r == HunkApplyReport::Failed(HunkApplyFailureReason::FileDoesNotExist)
-    } else if matches_at(deep(v_old(h, d, f)), c, rl) {
+    } else if matches_at(deep(v_old_core(h, d, f)), c, rl + v_pc(h, f)) {
         r == applied_report(h, d, f, rl)
     } else {
         r == HunkApplyReport::Failed(HunkApplyFailureReason::NoMatchingLines)
